@@ -35,9 +35,12 @@ def parseItem (s : String) : Option Item :=
 def parseItems (s : String) : Option (List Item) :=
   if s == "-" then some [] else (s.splitOn ",").mapM parseItem
 
-abbrev St := SysB Tw.Snap.Snap
+structure St where
+  y : SysB Tw.Snap.Snap := {}
+  /-- session flag `refglue` -/
+  ref : Bool := false
 
-def ops := execOps objSize06
+def opsOf (s : St) := execOps objSize06 s.ref
 
 def le32 (v : Int) : List UInt8 :=
   let n := (v % 4294967296).toNat
@@ -55,73 +58,79 @@ def optStr : Option Int → String
 
 def wStr (ws : List MgrWarning) : String := listStr (ws.map MgrWarning.name)
 
-def deliverMsg (y : St) (m : Msg) : St × String :=
-  let (c', res, ws) := y.sys.client.step ops m
+def deliverMsg (s : St) (m : Msg) : St × String :=
+  let (c', res, ws) := s.y.sys.client.step (opsOf s) m
   let line := match res with
     | .error e => s!"err {e.name}"
     | .ok none => "ok none"
     | .ok (some sn) =>
       let n := match sn.items with | some l => toString l.length | none => "?"
       s!"ok snap tick={m.tick} crc={sn.crc} items={n} sh={snapHash sn}"
-  ({ y with sys := { y.sys with client := c' } }, s!"{line} ack={optStr c'.ackTick} w={wStr ws}")
+  ({ s with y := { s.y with sys := { s.y.sys with client := c' } } },
+    s!"{line} ack={optStr c'.ackTick} w={wStr ws}")
 
-def doAck (y : St) (e : Ev Tw.Snap.Snap) (v : Int) : St × String :=
-  let (st', r, w) := y.sys.sender.setDeltaTick v
+/-- run one model event; a panic resets the session (as the harness does) -/
+def runEv (s : St) (e : EvB Tw.Snap.Snap (List Item)) : Option (St × ObsB Tw.Snap.Snap) :=
+  match s.y.step (opsOf s) execBuild e with
+  | .panic _ => none
+  | .ok (y', o) => some ({ s with y := y' }, o)
+
+def doAck (s : St) (e : Ev Tw.Snap.Snap) (v : Int) : St × String :=
+  let (st', r, w) := s.y.sys.sender.setDeltaTick v
   let rs := match r with | .ok => "ok" | .unknownSnap => "err UnknownSnap"
   let line := s!"{rs} dt={optStr st'.deltaTick} w={if w then "WeirdNegativeDeltaTick" else "-"}"
-  match y.step ops execBuild (.other e) with
-  | .panic _ => ({}, "panic")
-  | .ok (y', _) => (y', line)
+  match runEv s (.other e) with
+  | none => ({ ref := s.ref }, "panic")
+  | some (s', _) => (s', line)
 
-def step (y : St) (toks : List String) : St × String :=
+def step (s : St) (toks : List String) : St × String :=
   let main := toks.takeWhile (· ≠ "|")
   match main with
-  | ["new"] => ({}, "ok")
-  | ["new", "mixed-uuid-sizes"] => ({}, "ok")
+  | "new" :: flags => ({ ref := flags.contains "refglue" }, "ok")
   | ["snap", t, items] =>
     match parseInt t, parseItems items with
     | some t, some items =>
-      let first := y.sys.msgs.length
-      match y.step ops execBuild (.sendItems t items) with
-      | .panic _ => ({}, "panic")
-      | .ok (y', .builderError e) => (y', s!"builder-err {e}")
-      | .ok (y', _) =>
-        match y'.sys.xfers.head? with
+      let first := s.y.sys.msgs.length
+      match runEv s (.sendItems t items) with
+      | none => ({ ref := s.ref }, "panic")
+      | some (s', .builderError e) => (s', s!"builder-err {e}")
+      | some (s', _) =>
+        match s'.y.sys.xfers.head? with
         | some x =>
-          (y', s!"sent {t} base={x.base} len={x.bytes.length} parts={y'.sys.msgs.length - first} crc={x.crc} first={first} h={fnvBytes fnvOffset x.bytes}")
-        | none => (y', "?")
-    | _, _ => (y, "bad-args")
+          (s', s!"sent {t} base={x.base} len={x.bytes.length} parts={s'.y.sys.msgs.length - first} crc={x.crc} first={first} h={fnvBytes fnvOffset x.bytes}")
+        | none => (s', "?")
+    | _, _ => (s, "bad-args")
   | ["d", i] =>
-    match (parseNat i).bind (y.sys.msgs[·]?) with
-    | none => (y, "bad-index")
-    | some m => deliverMsg y m
+    match (parseNat i).bind (s.y.sys.msgs[·]?) with
+    | none => (s, "bad-index")
+    | some m => deliverMsg s m
   | ["dc", i, dl] =>
-    match (parseNat i).bind (y.sys.msgs[·]?), parseInt dl with
+    match (parseNat i).bind (s.y.sys.msgs[·]?), parseInt dl with
     | some m, some dl =>
       let m' := match m with
         | Msg.single t dt c d => Msg.single t dt (wrap32 (c + dl)) d
         | Msg.snap t dt n p c d => Msg.snap t dt n p (wrap32 (c + dl)) d
         | Msg.empty t dt => Msg.empty t dt
-      deliverMsg y m'
-    | _, _ => (y, "bad-index")
+      deliverMsg s m'
+    | _, _ => (s, "bad-index")
   | ["ack"] =>
-    let v := y.sys.client.ackTick.getD (-1)
-    match y.step ops execBuild (.other .ack) with
-    | .panic _ => ({}, "panic")
-    | .ok (y', _) => (y', s!"ackmsg {y.sys.acks.length} {v}")
+    let v := s.y.sys.client.ackTick.getD (-1)
+    match runEv s (.other .ack) with
+    | none => ({ ref := s.ref }, "panic")
+    | some (s', _) => (s', s!"ackmsg {s.y.sys.acks.length} {v}")
   | ["da", j] =>
-    match (parseNat j).bind fun j => (y.sys.acks[j]?).map fun v => (j, v) with
-    | none => (y, "bad-index")
-    | some (j, v) => doAck y (.deliverAck j) v
+    match (parseNat j).bind fun j => (s.y.sys.acks[j]?).map fun v => (j, v) with
+    | none => (s, "bad-index")
+    | some (j, v) => doAck s (.deliverAck j) v
   | ["ra", v] =>
     match parseInt v with
-    | some v => doAck y (.forgedAck v) v
-    | none => (y, "bad-args")
+    | some v => doAck s (.forgedAck v) v
+    | none => (s, "bad-args")
   | ["creset"] =>
-    match y.step ops execBuild (.other .clientReset) with
-    | .panic _ => ({}, "panic")
-    | .ok (y', _) => (y', "ok")
-  | _ => (y, "bad-op")
+    match runEv s (.other .clientReset) with
+    | none => ({ ref := s.ref }, "panic")
+    | some (s', _) => (s', "ok")
+  | _ => (s, "bad-op")
 
 def main : IO Unit := runLoop step {}
 
